@@ -9,7 +9,7 @@ import z3
 
 from pyvc import ops, specfn
 from pyvc.interp import LoopSpec
-from pyvc.sym import SSeq, SBool, SPy, PyVal, SeqI, SeqSeqI, IntS, mk_bool, mk_int, to_pyval
+from pyvc.sym import SSeq, SBool, SPy, PyVal, ExcObj, SeqI, SeqSeqI, IntS, mk_bool, mk_int, to_pyval
 from pyvc.unit import Contract, Case
 from contracts import objs
 from contracts import binmodel as BM
@@ -81,6 +81,7 @@ def ibv_cases(E, ctx):
 def register(reg):
     register_exist(reg)
     register_nodes(reg)
+    register_get_branch(reg)
     reg.add("binary_branches", Contract(MOD + ":if_branch_valid", ["branch", "root_hash", "key", "value"], ibv_cases,
                                         setup=ibv_setup, props=("C13",), callee=False,
                                         loops={0: LoopSpec(lambda E, fr, i: [], fresh={"node": "unbound"})}))
@@ -205,3 +206,101 @@ def register_nodes(reg):
     g = "binary_branches"
     reg.add(g, Contract(MOD + ":get_trie_nodes", ["db", "node_hash"], gtn_cases, setup=gtn_setup, requires=gtn_requires,
                         props=("C13",)))
+
+
+# ---------------------------------------------------------------------------------------------------
+# get_branch / _get_branch against their specification
+#
+#   brok(h, k)   get_branch accepts the key: it is not cut short inside the trie and does not run past a leaf
+#   bbr(h, k)    the node bodies on the path of k below h, root first
+# and:  a refused key is not stored  (blk(h, k) = None whenever not brok(h, k))
+
+brok = z3.Function("brok", SeqI, SeqI, z3.BoolSort())
+bbr = z3.Function("bbr", SeqI, SeqI, SeqSeqI)
+
+
+def unfold_branch_spec(E, h, k):
+    P = BM.parts_of(E, h)
+    lk = z3.Length(k)
+    me = z3.Unit(BM.unk(h))
+    through = z3.PrefixOf(P.path, k)
+    rest = BM.tail(k, z3.Length(P.path))
+    nxt = z3.If(k[0] == 0, P.left, P.right)
+    blank = h == BM.blank_hash(E)
+    ok = z3.If(blank, True,
+               z3.If(P.is_leaf, lk == 0,
+                     z3.If(P.is_kv, z3.And(lk > 0, z3.Implies(through, brok(P.child, rest))),
+                           z3.And(lk > 0, brok(nxt, BM.tail(k, 1))))))
+    seq = z3.If(blank, z3.Empty(SeqSeqI),
+                z3.If(P.is_leaf, me,
+                      z3.If(P.is_kv, z3.If(through, z3.Concat(me, bbr(P.child, rest)), me),
+                            z3.Concat(me, bbr(nxt, BM.tail(k, 1))))))
+    E.assume(mk_bool(brok(h, k) == ok))
+    E.assume(mk_bool(z3.Implies(brok(h, k), bbr(h, k) == seq)))
+
+
+def gb_setup(E):
+    from contracts.binary_c import bits
+    E.ghost["adt_nodes"] = True
+    db = E.fresh_dict("db", "bytes", "bytes")
+    db.hooks = BM.BinDbInvariant()
+    return {"db": db, "node_hash": objs.hash32(E, "node_hash"), "keypath": bits(E, "keypath")}
+
+
+def gb_requires(E, ctx):
+    from contracts.binaries_c import allbit_of
+    side = []
+    ok = allbit_of(ops.seq_term_as(ctx.keypath, "int"), side)
+    for f in side:
+        E.assume(mk_bool(f))
+    return [("hash-is-32-bytes", mk_bool(z3.Length(ops.seq_term_as(ctx.node_hash, "int")) == 32)),
+            ("key-is-a-bit-string", mk_bool(ok))]
+
+
+def gb_cases(E, ctx):
+    h = ops.seq_term_as(ctx.node_hash, "int")
+    k = ops.seq_term_as(ctx.keypath, "int")
+    unfold_branch_spec(E, h, k)
+    BM.unfold_blk(E, h, k)
+    from contracts import seqlemmas as SL
+    P = BM.parts_of(E, h)
+    SL.use(E, "prefix_is_slice", P.path, k)
+    unit_mode = hasattr(ctx, "outcome")
+    ike = objs.exc(E, "InvalidKeyError")
+
+    def refused_clause(e):
+        return [("a-refused-key-is-not-stored", mk_bool(BM.blk(h, k) == PyVal.PNone))]
+
+    def make_refused():
+        E.assume(mk_bool(BM.blk(h, k) == PyVal.PNone))
+        return ExcObj(ike, ("refused",))
+    return [Case("branch", when=mk_bool(brok(h, k)), returns=lambda: SSeq(bbr(h, k), "tuple", "bytes")),
+            Case("refused", when=mk_bool(z3.Not(brok(h, k))), raises=ike, exc=refused_clause,
+                 make=None if unit_mode else make_refused),
+            Case("missing-node", raises=KeyError)]
+
+
+def gb_api_setup(E):
+    E.ghost["adt_nodes"] = True
+    db = E.fresh_dict("db", "bytes", "bytes")
+    db.hooks = BM.BinDbInvariant()
+    return {"db": db, "root_hash": objs.hash32(E, "root_hash"), "key": E.fresh_seq("key", "bytes")}
+
+
+def gb_api_cases(E, ctx):
+    from contracts.binary_c import key_bits
+    root = ops.seq_term_as(ctx.root_hash, "int")
+    kb = key_bits(E, ctx.key).t
+    ike = objs.exc(E, "InvalidKeyError")
+    return [Case("branch", when=mk_bool(brok(root, kb)), returns=lambda: SSeq(bbr(root, kb), "tuple", "bytes")),
+            Case("refused", when=mk_bool(z3.Not(brok(root, kb))), raises=ike,
+                 exc=lambda e: [("a-refused-key-is-not-stored", mk_bool(BM.blk(root, kb) == PyVal.PNone))]),
+            Case("missing-node", raises=KeyError)]
+
+
+def register_get_branch(reg):
+    g = "binary_branches"
+    reg.add(g, Contract(MOD + ":_get_branch", ["db", "node_hash", "keypath"], gb_cases, setup=gb_setup,
+                        requires=gb_requires, props=("C13",)))
+    reg.add(g, Contract(MOD + ":get_branch", ["db", "root_hash", "key"], gb_api_cases, setup=gb_api_setup,
+                        props=("C13",), callee=False))
